@@ -450,9 +450,12 @@ PROPS = {
              "nontrivial": e2e_nontrivial, "distribution": e2e_dist},
         ],
         "rule": "scenarios of 2-10 concurrent requests through the real Client service (Client::builder, pool on/off, custom streaming "
-                "request body type) over in-memory duplex connections with buffer 64 B - 64 KiB to the real hyperdriver Server (auto "
-                "HTTP/1+HTTP/2; 1 in 5 behind TLS with ALPN), virtual time: per request a unique id in path, header and body pattern, "
-                "HTTP/1.1 or HTTP/2, 1-3 origins (pool keys), GET/POST/PUT/DELETE/HEAD, path and query filler, request body 0-70 KB in "
+                "request body type) over in-memory duplex connections with buffer 8 B - 64 KiB (TLS: 64 B and up) to four real "
+                "hyperdriver Servers (auto HTTP/1+HTTP/2; 1 in 4 scenarios behind TLS with server ALPN h2+http/1.1, http/1.1 only or h2 "
+                "only) reached through a transport that routes by scheme, host and effective port, each server stamping its identity on "
+                "the response, virtual time: per request a unique id in path, header and body pattern, HTTP/1.1 or HTTP/2, one of six "
+                "origins (two hosts; no port, :8080, the other scheme's default port, explicit default port, ws/wss scheme - so that pool "
+                "keys differing only in port or scheme occur together), GET/POST/PUT/DELETE/HEAD, path and query filler, request body 0-70 KB in "
                 "chunks of 1 B - 100 KB with or without a declared length (every third request pauses between chunks), handler delay "
                 "0-100 ms, response status from a 7-entry table, response headers, response body 0-70 KB streamed in chunks, start time "
                 "in 1-3 rounds 500 ms apart (later rounds find pooled connections), 1 in 5 requests dropped by the caller 0-120 ms after "
